@@ -521,24 +521,109 @@ func ruleCallbackReentrancy() check.Rule {
 	}
 }
 
+// NO-EMIT-UNDER-TEARDOWN-LOCK: an operator's teardown runs synchronously inside the notification that ends its
+// output (terminal) or that makes downstream unsubscribe (Take, First, an observer calling Unsubscribe).
+func ruleNoEmitUnderTeardownLock() check.Rule {
+	return check.Rule{
+		Name:        "NO-EMIT-UNDER-TEARDOWN-LOCK",
+		Doc:         "no operator sends a notification to its destination while holding a lock that one of its own teardowns acquires: the destination's subscriber runs the operator's teardown synchronously inside a terminal notification, and inside any notification during which downstream unsubscribes, so the teardown would block for ever on the non-reentrant mutex (Unsubscribe never returns, Wait/Collect hang on a terminated stream)",
+		NeedControl: true,
+		Run: func(c *check.Ctx) {
+			m := c.M
+			h := newHeldDB(m)
+			for _, sc := range m.SCs {
+				armed := c.Armed(sc)
+				// locks acquired by teardown functions: returned literals and literals registered with Add
+				tdLocks := map[string]token.Pos{}
+				addLit := func(p *packages.Package, lit *ast.FuncLit) {
+					if lit == nil {
+						return
+					}
+					res := lockResult(p, lit)
+					for _, op := range res.Ops {
+						if op.Kind == "Lock" || op.Kind == "RLock" {
+							tdLocks[op.Key] = op.Node.Pos()
+						}
+					}
+				}
+				for _, tr := range sc.Teardowns {
+					if tr.Val != nil && tr.Val.Kind == model.AVFunc {
+						addLit(tr.Pkg, tr.Val.Lit)
+					}
+				}
+				for _, op := range sc.SubOps {
+					if op.Method == "Add" && op.Arg != nil && op.Arg.Kind == model.AVFunc {
+						addLit(op.Pkg, op.Arg.Lit)
+					}
+				}
+				if len(tdLocks) == 0 {
+					continue
+				}
+				c.Inc("scs_with_locking_teardown", 1)
+				cnt := 0
+				for _, e := range sc.Emits {
+					if !e.ToDest || e.Forwarder {
+						continue
+					}
+					held := h.heldAt(e.Pkg, e.Node)
+					for k, lockPos := range tdLocks {
+						if !held[k] {
+							continue
+						}
+						cnt++
+						key := fmt.Sprintf("%s/%s/emit-under-teardown-lock#%d", sc, model.CtxKey(e.Ctx, e.Slot), cnt)
+						c.Report(armed, key, e.Pos, "the %s notification is sent to the destination while %s is held, and the operator's teardown (%s) takes the same lock: when this notification ends the output, or downstream unsubscribes inside it, the teardown runs synchronously and dead-locks", []string{"Next", "Error", "Complete"}[e.Kind], lockShort(k), c.Prog.Rel(lockPos))
+					}
+				}
+				if cnt == 0 && armed {
+					c.OK(sc.String()+"/emit-under-teardown-lock", sc.Lit.Pos(), "no notification is sent while a lock of the teardown is held (%d teardown lock(s))", len(tdLocks))
+				}
+			}
+		},
+	}
+}
+
 func C06() *check.Property {
 	return &check.Property{
 		ID:       "C06",
 		Title:    "Unsubscribe cuts delivery; IsClosed, Wait and Collect tell the truth",
 		Patterns: CorePatterns,
 		Scope:    []string{ro},
-		Rules:    []check.Rule{ruleUnsubFlipsFirst(), ruleNoProducerLockInQueries(), ruleSelfUnsubscribe(), ruleWaitSignal(), ruleCollectWaits(), ruleFinalizerDiscipline(), ruleGatesOf(false), ruleWaitImplementors(), ruleCallbackReentrancy()},
+		Rules:    []check.Rule{ruleUnsubFlipsFirst(), ruleNoProducerLockInQueries(), ruleSelfUnsubscribe(), ruleWaitSignal(), ruleCollectWaits(), ruleFinalizerDiscipline(), ruleGatesOf(false), ruleWaitImplementors(), ruleCallbackReentrancy(), ruleNoEmitUnderTeardownLock()},
 		Explanation: "Static ordering / who-may-lock checks over subscriber.go, subscription.go and observable.go. Unsubscribe closes the status word (won compare-and-swap) before running finalizers, so with the Next gate of C01 a notification whose emission starts after Unsubscribe returned " +
 			"is refused; the query methods and Unsubscribe never take the producer lock (callable from inside a callback); terminal notifications are delivered before the subscriber closes itself; Wait blocks only on a buffered channel signalled solely by a teardown it registers " +
 			"(run at once if already closed), so it returns iff the subscription is or gets closed; Collect waits on the collecting subscription before every return and returns exactly what its observer gathered; Unsubscribe is idempotent (FINALIZER-DISCIPLINE); no other type shortcuts Wait (WAIT-IMPLEMENTORS); no subject notifies an observer while holding a lock its subscriber teardown takes, so Unsubscribe from inside a callback cannot dead-lock (CALLBACK-REENTRANCY).",
 		NotDecided:  "the real-time ordering 'began afterwards' itself (follows from the compare-and-swap and the gate; argued, not model-checked); concurrent callers beyond the guarded-by discipline.",
 		Assumptions: []string{"sync/atomic, sync.Mutex and channel semantics"},
-		Floors:      map[string]int{"query_methods": 4, "gated_calls": 3, "field_accesses": 8, "subject_deliveries_checked": 3},
+		Floors:      map[string]int{"query_methods": 4, "gated_calls": 3, "field_accesses": 8, "subject_deliveries_checked": 3, "scs_with_locking_teardown": 8},
 		Controls:    map[string]string{"zz_verif_controls_c06.go": roControl(controlsC06)},
 	}
 }
 
 const controlsC06 = `
+func verifControlEmitUnderLock[T any]() func(Observable[T]) Observable[T] {
+	return func(source Observable[T]) Observable[T] {
+		return NewObservableWithContext(func(subscriberCtx context.Context, destination Observer[T]) Teardown {
+			var mu sync.Mutex
+			last := 0
+			sub := source.SubscribeWithContext(subscriberCtx, NewObserverWithContext(
+				func(ctx context.Context, value T) {
+					mu.Lock()
+					last++
+					destination.NextWithContext(ctx, value)
+					mu.Unlock()
+				},
+				destination.ErrorWithContext, destination.CompleteWithContext))
+			return func() {
+				sub.Unsubscribe()
+				mu.Lock()
+				last = 0
+				mu.Unlock()
+			}
+		})
+	}
+}
+
 type verifControlWaiter struct {
 	Subscription
 	closed int32
